@@ -197,6 +197,9 @@ def run_case(case, i, extcache):
 
 
 def main():
+    os.environ.setdefault('VERIF_CACHE_BASE', os.environ['C12_TMP'])
+    from harness.core import private_cache
+    private_cache()
     cases = json.load(open(sys.argv[1]))
     envdir = os.environ['C12_ENVDIR']
     extcache = {}
